@@ -55,6 +55,10 @@ def af_sets(res, tier, want_large=True):
         sets["iso4"] = afgen.iso4_sample(s, 400)
         sets["rand"] = afgen.random_afs(s, 250, 5, 8)
     sets["shaped"] = afgen.shaped()
+    sets["gadgets"] = afgen.gadget_unions(s, 8, 140 if tier == "thorough" else 70)
+    # judged exactly through the grounded reduct (Meta!FamByReduct): the undecided part has small components whatever the size
+    sets["bigfunnels"] = afgen.big_funnels()
+    sets["reducible"] = afgen.reducible_large(s, 160 if tier == "thorough" else 40, 20, 90) + afgen.reducible_large(s + 1, 40 if tier == "thorough" else 10, 91, 300)
     sets["mid"] = afgen.mid_afs(s, 120 if tier == "thorough" else 30)
     return sets
 
@@ -119,10 +123,11 @@ def static_plan(tier):
     if tier == "thorough":
         return [("ref3", "compact,sparse,dup", "dfs", 400), ("iso4", "compact,sparse", "dfs", 200),
                 ("shaped", "compact,sparse,dup", "dfs", 24), ("rand", "compact,sparse", "dfs", 24),
-                ("rand", "dup", "real", 1), ("mid", "compact,sparse", "dfs", 4), ("rand", "padded", "dfs", 4), ("iso4", "padded", "real", 1)]
+                ("rand", "dup", "real", 1), ("mid", "compact,sparse", "dfs", 4), ("rand", "padded", "dfs", 4), ("iso4", "padded", "real", 1),
+                ("gadgets", "compact,sparse", "dfs", 12), ("bigfunnels", "compact,dup", "dfs", 2), ("reducible", "compact,sparse,dup", "dfs", 4)]
     return [("ref3", "compact,sparse,dup", "dfs", 200), ("iso4", "compact,sparse", "dfs", 64),
             ("shaped", "compact,sparse", "dfs", 8), ("rand", "compact,sparse", "dfs", 6), ("mid", "compact,sparse", "dfs", 2),
-            ("rand", "padded", "dfs", 2)]
+            ("rand", "padded", "dfs", 2), ("gadgets", "compact", "dfs", 4), ("bigfunnels", "compact", "real", 1), ("reducible", "compact,sparse", "dfs", 2)]
 
 
 def nontrivial_static(segs, res, rule_kind):
@@ -159,9 +164,13 @@ def static_check(pid, tier, kinds, cert, rule_kind, rule, sems="GR,CO,PR,ST,SST,
     for (sname, present, oracle, budget) in (plan or static_plan(tier)):
         afs = sets[sname]
         if lists > 1:
-            afs = [a for a in afs if a["n"] <= (4 if lists >= 3 else 6)]
+            afs = [a for a in afs if a["n"] <= (4 if lists >= 3 else (7 if sname == "gadgets" else 6))]
         opts = dict(sems=sems, kinds=kinds, cert=cert, present=present, oracle=oracle, budget=budget, lists=lists,
                     cap=300 if sname in ("ref3", "iso4") else (1500 if sname == "mid" else 400))   # SAT calls per query before it is declared non-terminating (legitimate maxima observed: 15 / 57 / 39)
+        if sname in ("bigfunnels", "reducible"):
+            # stage extensions are not reached by the reduct: the whole components would have to be enumerated
+            opts["sems"] = ",".join(x for x in sems.split(",") if x != "STG")
+            opts["cap"] = 1500
         if extra:
             opts.update(extra)
         rname = "%s_%s_%s_%s" % (pid, sname, present.replace(",", "+")[:14], oracle)
@@ -257,7 +266,8 @@ def c07(tier):
     return static_check("C07", tier, "DC,DS", "both", "LIST",
                         "all lists of 1..3 arguments with repetition (frameworks <= 4 arguments; lists of <= 2 up to 6 arguments); non-trivial = list with >= 2 distinct arguments",
                         lists=3 if tier == "thorough" else 2,
-                        plan=[("ref3", "compact,sparse", "dfs", 64), ("iso4", "compact", "dfs", 16), ("shaped", "compact", "dfs", 4), ("rand", "compact", "dfs", 4)])
+                        plan=[("ref3", "compact,sparse", "dfs", 64), ("iso4", "compact", "dfs", 16), ("shaped", "compact", "dfs", 4), ("rand", "compact", "dfs", 4),
+                              ("gadgets", "compact", "dfs", 2)])
 
 
 def replay(path):
@@ -604,6 +614,13 @@ def c17(tier):
             fs = [e for s in segs for e in s if e["ev"] == "fault" and e["out"]["faulted"]]
             if fs:
                 res.samples.append(fs[len(fs) // 2])
+    # at the command line: `crustabri solve --external-sat-solver` with a backend failing at every call or at the K-th one
+    bindir = vlib.build_repo_bins()
+    cli_afs = rng.sample(sets["ref3"], 200 if thorough else 60) + [a for a in sets["shaped"] if 1 <= a["n"] <= 8][:20] + sets["rand"][:(100 if thorough else 30)]
+    csegs = clilib.fault_events(cli_afs, res.wd, {"crustabri": os.path.join(bindir, "crustabri")}, seed(), FAKESAT, per_af=16 if thorough else 10)
+    t1, st = vlib.judge("TraceStatic.tla", csegs, res.wd, "cli_faults", shards=8)
+    res.add_judge("command_line_faults", t1, st, only_props={"C17"})
+    res.extra["cli_runs_in_which_the_failing_call_was_reached"] = sum(1 for s_ in csegs for e in s_ if e.get("ev") == "clifault" and e["faulted"])
     # every reply of <= 3 (4) lines that the specification classes as missing / truncated / malformed, through a real process
     rfile, nr = export_replay(res, "MCExtReply.tla", open(os.path.join(vlib.SPEC, "MCExtReply.cfg")).read().replace("MaxLines = 3", "MaxLines = %d" % (4 if thorough else 3)), "MCExtReply")
     out = os.path.join(res.wd, "trunc.ndjson")
@@ -965,7 +982,7 @@ def c11(tier):
     # the relations are theorems of the semantics: checked over all small frameworks (IsoInvariant, Product, StableCoincide, ...)
     small = mcdung(res, 4 if thorough else 3)
     # ... and, for the padding with sinks, proved for frameworks of any size (TLAPS)
-    res.extra["tlaps"] = [vlib.tlaps("proofs/SinkLemma.tla", res.wd), vlib.tlaps("proofs/ProductLemma.tla", res.wd)]
+    res.extra["tlaps"] = [vlib.tlaps("proofs/SinkLemma.tla", res.wd), vlib.tlaps("proofs/ProductLemma.tla", res.wd), vlib.tlaps("proofs/ReductLemma.tla", res.wd)]
     s = seed()
     k = 4 if thorough else 1
     larges = afgen.large_afs(s, 150 * k, 20, 50) + afgen.large_afs(s + 1, 60 * k, 51, 120) + afgen.large_afs(s + 2, 40 * k, 121, 300)
